@@ -87,6 +87,8 @@ type strace struct {
 	all      []*srvSession
 	usurped  []*srvSession // replaced by a newer call
 	listens  map[int]*srvListen
+	// regTimeout: a call did not register within the bound; the case is not decidable (discarded)
+	regTimeout bool
 	allLis   []*srvListen
 	usurpedL []*srvListen
 	subs     []submitted
@@ -176,8 +178,11 @@ func (t *strace) apply(o sop) bool {
 		}
 		s := newSrvSession(o.P, o.Q)
 		t.all = append(t.all, s)
+		prev := t.live[k]
 		t.live[k] = s
-		s.start(t.srv, true)
+		if !s.startRegistered(t.srv, prev) {
+			t.regTimeout = true
+		}
 		if t.live[pair{o.Q, o.P}] != nil {
 			t.classes["second-peer-attaches"] = true
 		}
@@ -290,7 +295,9 @@ func (t *strace) apply(o sop) bool {
 		l := newSrvListen(o.P)
 		t.allLis = append(t.allLis, l)
 		t.listens[o.P] = l
-		l.start(t.srv)
+		if !l.startRegistered(t.srv) {
+			t.regTimeout = true
+		}
 	case "unlisten":
 		l := t.listens[o.P]
 		if l == nil {
